@@ -128,7 +128,6 @@ theorem cross_variant_neighbour_decodes (dsha : Bytes → Bytes) :
     rw [hb] at h
     exact ⟨sc, rfl, by simpa using h⟩
 
--- GOAL (not proved): cross_variant_characterised — a string within at most four data-part substitutions of a valid address decodes iff it is the single v0<->v1 neighbour pattern of its length (for 59 symbols: version symbol plus offsets 16, 36, 45 from the end; 397 of the 455 126 four-subsets span BECH32 xor BECH32M); the syndrome target is not shift-invariant, so all placements would have to be checked
 -- GOAL (not proved): substitutions of human-readable-part characters that change the three high bits of a character alter two symbols of the expanded word; they are covered by `detects_le4_expanded` only while at most four symbols change in total (for embit's table an unknown HRP is rejected outright by `unknown_hrp_rejected`)
 
 /-! ### non-vacuity -/
